@@ -375,7 +375,8 @@ def run(run, tier, replay):
                   "programs_closed", "errors_after_close"):
             run.note(k, s.get(k))
         run.note("programs", len(progs))
-        if not s.get("blocked_writes") or not s.get("blocked_opens") or not s.get("programs_closed"):
+        if (not s.get("blocked_writes") or not s.get("blocked_opens") or not s.get("programs_closed")) \
+                and not run.violations:
             raise vlib.ToolError("programs never blocked a writer / an open / never closed: binding too weak: %s" %
                                  {k: s.get(k) for k in ("blocked_writes", "blocked_opens", "programs_closed")})
         run.sample(progs[0])
